@@ -192,20 +192,19 @@ Proof.
            ++ intros bit Hb. destruct (H4 bit Hb) as (l0 & lft0 & Hin & Hl). exists l0, lft0. split; [apply in_or_app; now left|exact Hl].
   - (* EvHs *)
     destruct (x_ph c) eqn:Eph; try discriminate.
-    destruct (negb (Nat.eqb p 0)) eqn:Ep; [discriminate|]. apply negb_false_iff, Nat.eqb_eq in Ep. subst p.
-    inversion Hs; subst c'. destruct H2 as [Hnd Hnf]. split; [cbn; repeat split; assumption|].
+    inversion Hs; subst c'. destruct H2 as [Hnd Hnf]. split; [cbn; split; assumption|].
     unfold Hist. rewrite since_conn_snoc, last_conn_snoc. cbn [is_conn x_ph x_k x_vfy x_acc].
     assert (Hl : last_conn pre = Some (x_k c)) by (apply H1; try rewrite Eph; discriminate).
     destruct (N.eqb h 0) eqn:Eh.
     + apply N.eqb_eq in Eh. subst h. repeat split; try discriminate.
       * intros _. exact Hl.
-      * apply hs_done_snoc. right. now exists 0.
-      * rewrite hs_failed_snoc. intros [H|(p & h & Hh & H)]; [contradiction|]. inversion H; subst. now apply Hh.
+      * apply hs_done_snoc. right. now exists p.
+      * rewrite hs_failed_snoc. intros [H|(p' & h' & Hh & H)]; [contradiction|]. inversion H; subst. now apply Hh.
       * lia.
     + apply N.eqb_neq in Eh. repeat split; try discriminate.
       * intros _. exact Hl.
-      * rewrite hs_done_snoc. intros [H|(p & H)]; [contradiction|]. inversion H; subst. now apply Eh.
-      * apply hs_failed_snoc. right. exists 0, h. split; [exact Eh|reflexivity].
+      * rewrite hs_done_snoc. intros [H|(p' & H)]; [contradiction|]. inversion H; subst. now apply Eh.
+      * apply hs_failed_snoc. right. exists p, h. split; [exact Eh|reflexivity].
   - (* EvVfy *)
     destruct (x_ph c) as [| | |prev] eqn:Eph; try discriminate. inversion Hs; subst c'.
     destruct H2 as (Hd & Hnf & Hprev). split; [exact Hd|].
